@@ -92,9 +92,45 @@ def post(V):
                                  'value': x, 'expected': exp, 'got': got})
 
 
+def post_blocks(V):
+    """the same value gives the same escaped text whichever form is used -- also for byte strings in a template with another
+    encoding than the default, also deep inside block tags (where the tags are built by the section's own parse)"""
+    from DocumentTemplate.DT_HTML import HTML
+    import html
+
+    class O:
+        pass
+    forms = ('&dtml-x;', '<dtml-var x html_quote>', '<dtml-var expr="x" html_quote>', '<dtml-var x fmt=html-quote>',
+             '<dtml-var x html_quote missing="">', '<dtml-var x html_quote null="" size=99>', '<dtml-var x fmt=html-quote null="">')
+    wraps = ('%s', '<dtml-if y>%s</dtml-if>', '<dtml-in s>%s</dtml-in>', '<dtml-with o><dtml-let q=y>%s</dtml-let></dtml-with>',
+             '<dtml-if y><dtml-in s><dtml-try>%s<dtml-except>E</dtml-try></dtml-in></dtml-if>', '<dtml-in s size=1>[%s]</dtml-in>',
+             '<dtml-unless n><dtml-if n>no<dtml-else>%s</dtml-if></dtml-unless>')
+    text = 'caf\xe9 <b> "x" & \'y\' \xfc'
+    for enc in ('latin-1', 'cp1252', 'utf-8', None):
+        for w in wraps:
+            for f in forms:
+                for val in (text, text.encode(enc or 'utf-8')):
+                    src = w % f
+                    V.count('renderings')
+                    try:
+                        t = HTML(src, encoding=enc) if enc else HTML(src)
+                        got = t(x=val, y=1, n=0, s=[1], o=O())
+                        if isinstance(got, bytes):
+                            got = got.decode(enc or 'utf-8')
+                    except Exception as e:  # noqa
+                        got = 'RAISED %s' % type(e).__name__
+                    esc = html.escape(text, True)
+                    if esc not in got or got.count('&lt;b&gt;') != 1:
+                        V.violation({'kind': 'departure', 'clause': 'escaped-value-in-block', 'source': src, 'encoding': enc,
+                                     'value': repr(val), 'expected_to_contain': esc, 'got': got[:200]})
+
+
 def main(tier):
     rng = random.Random(common.seed())
-    return vc.run(PID, tier, sweeps(tier, rng), classify, post=post, invs=['NoRawSpecial', 'PlainUntouched'],
+    def posts(V):
+        post(V)
+        post_blocks(V)
+    return vc.run(PID, tier, sweeps(tier, rng), classify, post=posts, invs=['NoRawSpecial', 'PlainUntouched'],
                   assumptions=['html.escape(s, quote=True) is the reference escaping (the machine\'s Esc transcribes its five '
                                'replacements); Python codecs are trusted for the bytes variants'],
                   rule='all strings up to length 3 (4 thorough, sampled) over {& < > " \' a e-acute emoji} x {entity, '
